@@ -71,6 +71,7 @@ func main() {
 	timeout := fs.Int("timeout", 10, "per-solver timeout in seconds")
 	seed := fs.Int("seed", 0, "solver random seed")
 	verbose := fs.Bool("v", false, "verbose")
+	groundCheck := fs.String("check", "", "ground: name of the table hypothesis")
 	split := fs.Bool("split", false, "diagnostic: split conjunctive goals into separate obligations")
 	oblRe := fs.String("obl", "", "regexp selecting obligations by name")
 	fs.Parse(os.Args[2:])
@@ -120,6 +121,10 @@ func main() {
 			}
 		}
 		return
+	case "ground":
+		js, _ := json.Marshal(p.ground(*groundCheck))
+		fmt.Println(string(js))
+		return
 	case "prove":
 	default:
 		fmt.Fprintln(os.Stderr, "unknown command", cmd)
@@ -129,6 +134,7 @@ func main() {
 	if *fnRe != "" {
 		re = regexp.MustCompile(*fnRe)
 	}
+	cleanup := func() {}
 	wd := *work
 	if wd == "" {
 		wd, err = os.MkdirTemp("", "govc")
@@ -137,7 +143,7 @@ func main() {
 			os.Exit(2)
 		}
 		if !*keep {
-			defer os.RemoveAll(wd)
+			cleanup = func() { os.RemoveAll(wd) }
 		}
 	} else {
 		os.MkdirAll(wd, 0o755)
@@ -168,11 +174,12 @@ func main() {
 	}
 	fmt.Printf("govc: %d functions, %d obligations, %d discharged, %d failed, %d canaries (%d vacuous), %.1fs wall, %.1fs solver\n",
 		len(res.Functions), len(res.Verdicts), len(res.Verdicts)-failed, failed, res.Canaries, len(res.CanaryProved), res.WallS, float64(res.SolverMs)/1000)
-	if len(res.Errors) > 0 || len(res.CanaryProved) > 0 {
-		os.Exit(2)
-	}
+	cleanup()
 	if failed > 0 {
 		os.Exit(1)
+	}
+	if len(res.Errors) > 0 || len(res.CanaryProved) > 0 {
+		os.Exit(2)
 	}
 }
 
@@ -344,24 +351,35 @@ func (p *Program) axiomsFor(vc *VC) []string {
 	for _, o := range vc.obligs {
 		text += o.Goal
 	}
-	for _, ax := range p.cs.Axioms {
-		env := &SpecEnv{vc: vc, vars: map[string]TV{}, st: State{}}
-		// only include axioms that mention a symbol used by the VC
-		used := false
-		for _, sym := range axiomSymbols(ax.E) {
-			if strings.Contains(text, "("+sym+" ") || strings.Contains(text, " "+sym+")") || strings.Contains(text, " "+sym+" ") {
-				used = true
+	included := map[int]bool{}
+	for changed := true; changed; {
+		changed = false
+		for idx, ax := range p.cs.Axioms {
+			if included[idx] {
+				continue
 			}
+			// only include axioms that mention a symbol used by the VC or by an axiom already included
+			used := false
+			for _, sym := range axiomSymbols(ax.E) {
+				if strings.Contains(text, "("+sym+" ") || strings.Contains(text, " "+sym+")") || strings.Contains(text, " "+sym+" ") {
+					used = true
+				}
+			}
+			if !used {
+				continue
+			}
+			env := &SpecEnv{vc: vc, vars: map[string]TV{}, st: State{}}
+			tv, err := env.tr(ax.E)
+			if err != nil {
+				vc.addErr("%s:%d: axiom: %v", ax.File, ax.Line, err)
+				included[idx] = true
+				continue
+			}
+			included[idx] = true
+			changed = true
+			out = append(out, tv.T)
+			text += "\n" + tv.T
 		}
-		if !used {
-			continue
-		}
-		tv, err := env.tr(ax.E)
-		if err != nil {
-			vc.addErr("%s:%d: axiom: %v", ax.File, ax.Line, err)
-			continue
-		}
-		out = append(out, tv.T)
 	}
 	// ground instances of ToLower for the literals of the function
 	if strings.Contains(text, "(ToLower ") {
